@@ -25,13 +25,14 @@ Two oracles, both in integer nanoseconds:
 """
 from __future__ import annotations
 
+import hashlib
 import heapq
 import itertools
 import signal
 import time
 from collections import defaultdict
 
-from mc.evidence import Run, digest
+from mc.evidence import Run
 from mc.harness import Entity, Event, Instant, Simulation, pmap, rotate, run_guarded
 
 from happysimulator.core.sim_future import SimFuture, all_of, any_of
@@ -116,6 +117,20 @@ class Hang(Exception):
 
 def _alarm(_sig, _frm):
     raise Hang()
+
+
+WATCHDOG_CPU_S = 30.0  # CPU seconds (ITIMER_VIRTUAL: immune to machine load / wall-clock jumps)
+_watchdog_installed = False
+
+
+def _watchdog(on):
+    """Checker safety net for a livelock that never enters a harness handler.  Measured in CPU time of
+    this process, five orders of magnitude above the cost of one execution (~150 us)."""
+    global _watchdog_installed
+    if not _watchdog_installed:
+        signal.signal(signal.SIGVTALRM, _alarm)
+        _watchdog_installed = True
+    signal.setitimer(signal.ITIMER_VIRTUAL, WATCHDOG_CPU_S if on else 0.0)
 
 
 # ---------------------------------------------------------------------------
@@ -321,8 +336,7 @@ def run_real(prog, watchdog=True):
         evs = evs + mk_starts()
     sim.schedule(evs)
     if watchdog:
-        old = signal.signal(signal.SIGALRM, _alarm)
-        signal.alarm(20)
+        _watchdog(True)
     try:
         if mode == "ctl":
             r = run_guarded(sim, max_events=MAX_LOG, storm=MAX_LOG)
@@ -333,13 +347,12 @@ def run_real(prog, watchdog=True):
     except Horizon:
         c.log.append(("horizon", "handler-activations"))
     except Hang:
-        c.log.append(("horizon", "wall-clock-watchdog"))
+        c.log.append(("horizon", "cpu-watchdog"))
     except Exception as exc:  # noqa: BLE001  (an exception escaping run() is an observed outcome)
         c.log.append(("exception", type(exc).__name__, str(exc)[:200]))
     finally:
         if watchdog:
-            signal.alarm(0)
-            signal.signal(signal.SIGALRM, old)
+            _watchdog(False)
     return c.log
 
 
@@ -793,29 +806,41 @@ def flat_yields(steps):
 
 
 def nontrivial(log):
-    """Rule: the execution contained an await whose future was already resolved or resolved at the
-    very instant of the yield, a second resolve of a future, a combinator with >= 2 resolved inputs,
-    a zero-nanosecond delay, or two different agents acting at the same instant."""
-    agents_at = defaultdict(set)
+    """Rule: the execution (a) awaited a future one of whose inputs was already resolved at the yield or
+    resolved at the very instant of the yield, or (b) resolved an already-resolved future, or (c) yielded a
+    non-zero delay that truncates to 0 ns, or (d) had a same-instant tie at a resume: between a process's
+    yield and its resume another agent (another process, the resolver, a sink delivery) acted at the
+    instant of the resume."""
     seen = set()
     bt = {}
-    for e in log:
-        if e[0] == "resolve":
+    acts = []  # (tick, time, agent)
+    ytick = {}
+    for tick, e in enumerate(log):
+        k = e[0]
+        if k == "resolve":
             if e[2] in seen:
                 return True
             seen.add(e[2])
             bt[e[2]] = e[3]
-            agents_at[e[3]].add(("r", e[1]))
-        elif e[0] in ("start", "resume", "finish"):
-            agents_at[e[2] if e[0] != "resume" else e[3]].add(("p", e[1]))
-        elif e[0] == "yield":
+            acts.append((tick, e[3], e[1] if e[1] == "pre" or e[1][0] != "p" else ("p", e[1][1])))
+        elif k == "deliver":
+            acts.append((tick, e[2], "sink"))
+        elif k == "start":
+            acts.append((tick, e[2], ("p", e[1])))
+        elif k == "yield":
             st = e[4]
-            if st[0] in ("delay", "delayw") and dns(st[1]) == 0:
+            if st[0] in ("delay", "delayw") and st[1] != 0 and dns(st[1]) == 0:
                 return True
             if st[0] == "await" and any(b in seen for b in expr_bases(st[1])):
                 return True
-    if any(len(a) > 1 for a in agents_at.values()):
-        return True
+            ytick[e[1]] = tick
+        elif k == "resume":
+            me = ("p", e[1])
+            y = ytick.get(e[1], -1)
+            for (tk, tm, ag) in acts:
+                if tk > y and tm == e[3] and ag != me:
+                    return True
+            acts.append((tick, e[3], me))
     for e in log:
         if e[0] == "yield" and e[4][0] == "await":
             if any(bt.get(b) == e[3] for b in expr_bases(e[4][1])):
@@ -871,8 +896,23 @@ def combinator_exprs():
     return out
 
 
+_FAM_CACHE = {}
+
+
 def family(name, tier):
-    """-> (A, B, bounds): A = list of procs tuples, B = list of (res, pre, order, mode)."""
+    """-> (A, B, bounds): A = list of procs tuples, B = list of (res, pre, order, mode).  Cached per process."""
+    key = (name, tier)
+    if key not in _FAM_CACHE:
+        _FAM_CACHE.clear()  # one family at a time (keeps long-lived pool workers small)
+        _FAM_CACHE[key] = _family(name, tier)
+    return _FAM_CACHE[key]
+
+
+def dig64(obj) -> int:
+    return int.from_bytes(hashlib.blake2b(repr(obj).encode(), digest_size=8).digest(), "big")
+
+
+def _family(name, tier):
     q = tier == "quick"
     if name == "delays":
         # one process, no futures: every yield form with a delay, yield from, every return form, hooks
@@ -921,7 +961,7 @@ def family(name, tier):
         elif name == "await-half":
             d_a, d_b = DSUB, DHALF
             times = (0, 499_999_999, 500_000_000, 500_000_001)
-            maxlen, maxres = (2, 2) if q else (3, 3)
+            maxlen, maxres = (2, 2) if q else (3, 2)
         else:  # await-big
             d_a, d_b = D1, DBIG
             times = (1, 10 ** 15 - 1, 10 ** 15, 10 ** 15 + 1, 10 ** 15 + 2)
@@ -998,20 +1038,22 @@ def family(name, tier):
             if not q:
                 a += [("await", ("any", F2, fm), "pre"), ("sub", (("await", fm, "late"),))]
             return a
-        n = 2 if q else 3
-        s0 = list(seqs(alpha(0, 1), n if q else 2, 1))
-        s1 = list(seqs(alpha(1, 0), n, 1))
         A = []
-        for a in s0:
-            for b in s1:
-                for st1 in (0, 1):
-                    A.append(((0, "entity", "ctor", a, "one"), (st1, "entity", "add", b, "none")))
+        pairs = [(list(seqs(alpha(0, 1), 2, 1)), list(seqs(alpha(1, 0), 2, 1)))]
+        if not q:
+            # longer second process over the 9-letter core alphabet
+            pairs.append((list(seqs(alpha(0, 1)[:9], 2, 1)), list(seqs(alpha(1, 0)[:9], 3, 3))))
+        for s0, s1 in pairs:
+            for a in s0:
+                for b in s1:
+                    for st1 in (0, 1):
+                        A.append(((0, "entity", "ctor", a, "one"), (st1, "entity", "add", b, "none")))
         B = [((), (), "P", "auto")]
         for t in (0, 1, 2):
             for f in (0, 1, 2):
                 B.append((((t, f),), (), "R", "auto"))
         B.append((((1, 2), (1, 2)), (), "P", "end"))
-        return A, B, {"processes": 2, "steps<=": [n if q else 2, n], "alphabet": len(alpha(0, 1)),
+        return A, B, {"processes": 2, "steps<=": [2, 2 if q else 3], "alphabet": len(alpha(0, 1)),
                       "start_ns": [[0], [0, 1]], "resolver_actions<=": 1}
     raise KeyError(name)
 
@@ -1031,7 +1073,7 @@ def _work(job):
             viol, real, ref, odiv = check_program(prog)
             st["exec"] += 1
             st["trans"] += sum(1 for e in real if e[0] in ("start", "resume", "deliver", "hook"))
-            st["outcomes"].add(digest(real))
+            st["outcomes"].add(dig64(real))
             if nontrivial(real):
                 st["nontriv"] += 1
             if odiv:
@@ -1045,8 +1087,10 @@ def _work(job):
                                     "two executions of the same program produced different logs")]
             for fp, desc in viol:
                 st["viol_count"][fp] += 1
-                if fp not in st["viol"]:
-                    st["viol"][fp] = (desc, {"driver": name, "program": prog, "real_log": real, "ref_log": ref})
+                size = len(repr(prog))
+                if fp not in st["viol"] or size < st["viol"][fp][2]:  # keep the smallest witness
+                    st["viol"][fp] = (desc, {"driver": name, "program": prog, "real_log": real, "ref_log": ref},
+                                      size)
             if len(st["samples"]) < 1 and (ai + bi) % 101 == 7:
                 st["samples"].append({"program": prog, "real_log": real})
     st["viol_count"] = dict(st["viol_count"])
@@ -1066,6 +1110,8 @@ def run_family(run, name, tier, seed):
     orderdiv = 0
     od_sample = None
     detchecks = 0
+    best = {}
+    counts = defaultdict(int)
     for st in pmap(_work, rotate(jobs, seed)):
         d.executions += st["exec"]
         d.transitions += st["trans"]
@@ -1074,11 +1120,17 @@ def run_family(run, name, tier, seed):
         orderdiv += st["orderdiv"]
         detchecks += st["detcheck"]
         od_sample = od_sample or st["orderdiv_sample"]
-        for fp, (desc, rep) in sorted(st["viol"].items()):
-            for _ in range(st["viol_count"][fp]):
-                run.violation(fp, desc, rep)
+        for fp, (desc, rep, size) in st["viol"].items():
+            counts[fp] += st["viol_count"][fp]
+            if fp not in best or size < best[fp][2]:
+                best[fp] = (desc, rep, size)
         if len(d.samples) < 3:
             d.samples.extend(st["samples"])
+    for fp in sorted(best):
+        desc, rep, _size = best[fp]
+        run.violation(fp, desc, rep)
+        run.violation_counts[fp] += counts[fp] - 1
+    d.extra["violating_executions_by_fingerprint"] = dict(counts)
     d.states = len(outcomes)
     d.outcomes = len(outcomes)
     d.extra["order_divergence_from_reference_without_clause_violation"] = orderdiv
@@ -1095,9 +1147,11 @@ def main(tier, seed, only=None):
               rule=("every program = (1-2 process scripts over {delay, delay+side effects, await future/any_of/all_of, "
                     "yield from, resolve, return} x start style x hooks) x (resolver schedule x pre-resolved futures x "
                     "creation order of pre-run events x loop mode) is executed on the real Simulation and on a "
-                    "reference interpreter; distinct = distinct program; non-trivial = the run awaited a future that "
-                    "was already resolved or resolved at the instant of the yield, resolved a future twice, used a "
-                    "zero-ns delay, or had two agents acting at one instant; states = distinct observation logs"),
+                    "reference interpreter; distinct = distinct program; non-trivial = the run awaited a future with "
+                    "an input already resolved at the yield or resolved at the instant of the yield, resolved a "
+                    "future twice, yielded a non-zero delay truncating to 0 ns, or had a same-instant tie at a resume "
+                    "(another process, the resolver or a sink delivery acted at the resume instant between the "
+                    "yield and the resume); states = distinct observation logs"),
               assumptions=["harness generators observe resume instants/values via Entity.now and the value of the "
                            "yield expression (public contract)",
                            "same-instant order of resolve calls is taken as observed (C01 owns event ordering)",
